@@ -47,8 +47,10 @@ def run():
     jobs = [lambda: c11.bind(ck, 'c02blake', big=False), lambda: c12.bind(ck, 'c02aes'), lambda: c10.bind(ck, os.path.join(wd, 'argon'), 'reduced', 'c02argon'),
             lambda: c09.scripted(ck, os.path.join(wd, 'ssx'), 'c02ssx', lite=True)]
     with ThreadPoolExecutor(len(jobs)) as ex:
+        bound = []
         for f in [ex.submit(j) for j in jobs]:
-            f.result()
+            r = f.result()
+            bound += list(r[0]) if isinstance(r, tuple) else list(r)
     kinds = {}
     for l in lines:
         e = l[6:l.index('"', 6)]
@@ -58,8 +60,9 @@ def run():
     ck.cov['iterations_executed_by_spec'] = kinds.get('h_iter', 0)
     ck.cov['states'] = max(ck.cov['states'], 1)
     ck.cov['transitions'] = max(ck.cov['transitions'], 1)
-    ck.cov['evaluations'] = len(lines)
-    ck.cov['distinct_nontrivial'] = len(set(lines))
+    ck.cov['evaluations'] = len(lines) + len(bound)
+    ck.cov['distinct_nontrivial'] = len(set(lines)) + len(set(bound))
+    ck.cov['arrow_binding_events'] = len(bound)
     ck.cov['rule'] = ('seeded (key, input, version) incl. empty key, empty input, multi-block input, key > 60 bytes; per hash: Blake2b seed, block 0 + first/last/8 random links of the 32768-block scratchpad fill, '
                       'all 8 program buffers (4-round generator chain recomputed completely), loop iterations 0 and a random one of programs 1, a middle one and 8 plus the very last iteration (thorough: also 1 and 2047), '
                       'all 8 register files and re-seedings, first/last/8 random links of the fingerprint chain (thorough: one full 2 MiB fingerprint), final Blake2b-256')
